@@ -460,6 +460,52 @@ def check_colsample_cover(ctx, rule: str):
 UNIT_DEPENDENT = {"isclose", "allclose", "round", "around", "rint", "floor", "ceil", "trunc"}
 
 
+
+_EVEN_AGG = {"std", "var", "count", "nunique", "size", "isna", "isnull", "notna", "notnull", "between", "isin", "value_counts", "sem", "mad", "kurt", "kurtosis"}
+
+
+def _signed_in_x(e, defs, seen=None) -> bool:
+    """Does the value of `e` change sign / order when the feature x is negated?  (x, x - mean, a
+    quantile, the mean are signed; abs(.), an even power, a dispersion statistic, a boolean mask,
+    a two-sided test x.between(..) are not)."""
+    seen = seen or set()
+    if isinstance(e, ast.Name):
+        if e.id == "x":
+            return True
+        if e.id in seen:
+            return False
+        return any(_signed_in_x(v, defs, seen | {e.id}) for v in defs.get(e.id, []))
+    if isinstance(e, (ast.Compare, ast.BoolOp, ast.Constant)):
+        return False
+    if isinstance(e, ast.UnaryOp):
+        return False if isinstance(e.op, ast.Not) else _signed_in_x(e.operand, defs, seen)
+    if isinstance(e, ast.BinOp):
+        if isinstance(e.op, ast.Pow) and isinstance(e.right, ast.Constant) and isinstance(e.right.value, int) and e.right.value % 2 == 0:
+            return False
+        return _signed_in_x(e.left, defs, seen) or _signed_in_x(e.right, defs, seen)
+    if isinstance(e, ast.Call):
+        cn = call_name(e)
+        if cn in ("abs", "absolute", "fabs", "square", "len"):
+            return False
+        if isinstance(e.func, ast.Attribute):
+            if cn in _EVEN_AGG or cn == "abs":
+                return False
+            return _signed_in_x(e.func.value, defs, seen) or any(_signed_in_x(a, defs, seen) for a in e.args)
+        # a plain function call (crosstab, kruskal, chi2_contingency, correlation ..) is a statistic other rules read
+        if cn in ("Series", "array", "asarray", "float", "where", "nan_to_num"):
+            return any(_signed_in_x(a, defs, seen) for a in list(e.args) + [k.value for k in e.keywords])
+        return False
+    if isinstance(e, (ast.Tuple, ast.List)):
+        return any(_signed_in_x(a, defs, seen) for a in e.elts)
+    if isinstance(e, ast.Subscript):
+        return _signed_in_x(e.value, defs, seen)
+    if isinstance(e, ast.Attribute):
+        return _signed_in_x(e.value, defs, seen)
+    if isinstance(e, ast.IfExp):
+        return _signed_in_x(e.body, defs, seen) or _signed_in_x(e.orelse, defs, seen)
+    return False
+
+
 def check_measure_encodings(ctx, rule: str):
     """Exported measures treat the feature in a way that commutes with negation and positive
     rescaling: no absolute tolerance / rounding on raw values, no one-sided order statistic."""
@@ -480,10 +526,31 @@ def check_measure_encodings(ctx, rule: str):
                 m = kwarg(n, "interpolation") or kwarg(n, "method")
                 if m is not None and const_value(m) in ("lower", "higher"):
                     bad.append((n, "'lower' on x is 'higher' on -x: the statistic is not symmetric under negation"))
+        # one-sided test of a signed quantity: `(x - mean) > 3 * std` flags the upper tail only, so -x is judged differently
+        defs = {}
+        for st in walk_no_nested(fi.node):
+            if isinstance(st, ast.Assign):
+                for t in st.targets:
+                    if isinstance(t, ast.Name):
+                        defs.setdefault(t.id, []).append(st.value)
+                    elif isinstance(t, ast.Tuple) and isinstance(st.value, ast.Tuple) and len(t.elts) == len(st.value.elts):
+                        for a, b in zip(t.elts, st.value.elts):
+                            if isinstance(a, ast.Name):
+                                defs.setdefault(a.id, []).append(b)
+                    else:
+                        for a in ast.walk(t):
+                            if isinstance(a, ast.Name):
+                                defs.setdefault(a.id, []).append(st.value)
+            elif isinstance(st, ast.AugAssign) and isinstance(st.target, ast.Name):
+                defs.setdefault(st.target.id, []).append(st.value)
+        for n in walk_no_nested(fi.node):
+            if isinstance(n, ast.Compare) and any(isinstance(o, (ast.Lt, ast.LtE, ast.Gt, ast.GtE)) for o in n.ops):
+                if any(_signed_in_x(a, defs) for a in [n.left] + list(n.comparators)):
+                    bad.append((n, "an order comparison of a quantity that changes sign with the feature (no abs / even power / two-sided test): x and -x are judged differently"))
         for n, why in bad[:2]:
             ctx.ob(rule, construct(fi, f"`{short(n, 60)}` is not invariant under re-encoding"), False, loc(fi, n), why)
         if not bad:
-            ctx.ob(rule, construct(fi, "no unit-dependent tolerance / rounding and no one-sided order statistic on the feature"), True, loc(fi))
+            ctx.ob(rule, construct(fi, "no unit-dependent tolerance / rounding, no one-sided order statistic and no one-sided test of a signed quantity of the feature"), True, loc(fi))
 
 
 def check_filter_wrappers(ctx, rule: str):
